@@ -30,6 +30,9 @@ func protoFor(l datamodel.Link) datamodel.NodePrototype {
 // assumeDistinctChunks constrains the content so that its size-K chunks are
 // pairwise different (the aliasing cases are explored by separate programs).
 func assumeDistinctChunks(content []byte, K int) {
+	if verifrt.Param("distinct", 1) == 0 {
+		return // free aliasing: repeated chunks (and so repeated subtrees) are explorer-chosen
+	}
 	n := (len(content) + K - 1) / K
 	for i := 0; i < n; i++ {
 		for j := i + 1; j < n; j++ {
@@ -65,7 +68,14 @@ func VerifFileRoundTrip() {
 	ls := st.LinkSystem()
 	unixfsnode.AddUnixFSReificationToLinkSystem(ls)
 
-	lnk, _, err := builder.BuildUnixFSFile(bytes.NewReader(content), "size-"+strconv.Itoa(K), ls)
+	chunker := "size-" + strconv.Itoa(K)
+	switch verifrt.Param("chunker", 0) {
+	case 1: // the default chunker under both spellings, and the content-defined chunkers, on
+		// inputs below their chunk sizes (one chunk: a single raw leaf)
+		chunker = []string{"", "default", "rabin", "buzhash", "rabin-16-32-64"}[verifrt.Choose(5)]
+		verifrt.Reach("other-chunkers")
+	}
+	lnk, _, err := builder.BuildUnixFSFile(bytes.NewReader(content), chunker, ls)
 	if err != nil {
 		verifrt.Event("build error: " + err.Error())
 	}
